@@ -116,7 +116,7 @@ def _(self, exc_type: Opt(ATOM), exc_val: Opt(ATOM), exc_tb: Opt(ATOM)):
 
 
 # ----------------------------------------------------------------------------- the status setters
-@contract("flumine/order/order.py::BaseOrder._update_status", tags=["C03"])
+@contract("flumine/order/order.py::BaseOrder._update_status", tags=["C03", "C02", "C16"])  # C02: a refusal (VIOLATION) never touches the trade
 def _(self, status: ATOM):
     requires("legal_transition", legal(self.status, status))
     modifies(self, "status")
